@@ -11,6 +11,7 @@ from . import common, molprops
 
 SPEC = {
     "level": "exploration",
+    "suite_under_monitor": True,
     "technique": "runtime contract (icontract ensure) on canonicalize_molecule: equitable/colour-pure/orbit-respecting/label-independent classes",
     "rule": ("cases: M1 exhaustive n<=4/5 x two 3-colour palettes (orbits also by enumeration), M2, M3 (known symmetric skeletons), M4, M7-small "
              "(paths/ladders/combs needing many refinement rounds), corpus; distinct_nontrivial = distinct molecules (canonical form / refinement "
